@@ -53,7 +53,10 @@ type StructField struct {
 // JSONName returns the field name used by Go json package,
 // that is, taking into account the json struct tag.
 func (st StructField) JSONName() string {
-	if name := st.Tag.Get("json"); name != "" {
+	// the tag may contain options after the name, like in `json:"name,omitempty"`
+	// or `json:",omitempty"`
+	name, _, _ := strings.Cut(st.Tag.Get("json"), ",")
+	if name != "" {
 		return name
 	}
 	return st.Field.Name()
